@@ -94,8 +94,12 @@ def sym_uri(ctx: Ctx, tag="", maxlen=6, path_len=4, shape_pq=True, userinfo=Fals
     ctx.assume(z3.Implies(z3.Not(has_auth), z3.Length(pq) >= 1))
     ctx.assume(z3.Length(pq) <= path_len)
     if shape_pq:
+      tail = z3.Star(z3.Union(z3.Range("a", "z"), z3.Re(z3.StringVal("/")), z3.Re(z3.StringVal("?")), z3.Re(z3.StringVal("="))))
       ctx.assume(z3.InRe(pq, z3.Union(z3.Re(z3.StringVal("")), z3.Re(z3.StringVal("*")),
-                                    z3.Concat(z3.Re(z3.StringVal("/")), z3.Star(z3.Union(z3.Range("a", "z"), z3.Re(z3.StringVal("/")), z3.Re(z3.StringVal("?")), z3.Re(z3.StringVal("="))))))))
+                                    z3.Concat(z3.Re(z3.StringVal("/")), tail),
+                                    # an absolute URI may have an empty path and a query: `http://host?x=1` keeps "?x=1"
+                                    z3.Concat(z3.Re(z3.StringVal("?")), tail))))
+      ctx.assume(z3.Implies(z3.PrefixOf(z3.StringVal("?"), pq), has_scheme))
     return UriV(has_scheme, scheme, has_auth, auth, pq)
 
 
